@@ -35,6 +35,11 @@ class Ctx:
             self.fam[c.fam] = self.fam.get(c.fam, 0) + 1
         for cr in res.crashes:
             self.crashes.append(cr)
+        # every eval case is run twice by the driver (two fresh evaluators): an outcome that changes is a violation of any property
+        for c in cases:
+            io = res.impl.get(c.id)
+            if io and io.get('det') == '0':
+                self.violation('the same rule and object gave two different outcomes in one process (map iteration order, left-over state or chance)', [c], impl=io)
         if 'model' in kw.get('sides', ('impl', 'model')) and not getattr(self, '_kc_done', False):
             self._kc_done = True
             self.kernel_crosscheck(cases, res, 60 if self.quick else 1500)
